@@ -175,7 +175,8 @@ where
 
         let attribute_header = if self.is_attribute { ", attribute = true" } else { "" };
 
-        if let Some(tns) = &self.target_namespace {
+        // attributes are unqualified (they are in no namespace), only elements carry the prefix
+        if let Some(tns) = self.target_namespace.as_ref().filter(|_| !self.is_attribute) {
             writeln!(
                 writer,
                 "    #[yaserde(prefix = {:?}, rename = {:?}{attribute_header})]",
